@@ -26,6 +26,8 @@ const PATH_SEPARATOR: u8 = 0x00;
 /// must be bounded. A folder costs only 5 bytes, which lets a 100 KB table
 /// nest 20 000 levels deep. Real path tables nest a few dozen levels at most.
 const MAX_FOLDER_DEPTH: usize = 512;
+/// Longest name fragment: the length byte must differ from `NODE_VALUE_MARKER`.
+const MAX_NAME_FRAGMENT_LEN: usize = 254;
 
 /// Path table storing the recursive prefix tree and resolved file entries.
 #[derive(Debug, Clone)]
@@ -298,18 +300,13 @@ fn build_entry(out: &mut Vec<u8>, node: &PathTreeNode) {
     if !name_bytes.is_empty() {
         out.push(PATH_SEPARATOR);
 
-        // Write name fragment: length + bytes
-        // For names longer than 255 bytes, we'd need to split into fragments.
-        // In practice TVFS names are short.
-        if name_bytes.len() <= 255 {
-            out.push(name_bytes.len() as u8);
-            out.extend_from_slice(name_bytes);
-        } else {
-            // Split into 255-byte chunks
-            for chunk in name_bytes.chunks(255) {
-                out.push(chunk.len() as u8);
-                out.extend_from_slice(chunk);
-            }
+        // Write name fragment(s): length + bytes.
+        // A length byte of 0xFF would be read back as the node value marker,
+        // so a fragment holds at most 254 bytes; longer names are split into
+        // consecutive fragments (the parser concatenates them).
+        for chunk in name_bytes.chunks(MAX_NAME_FRAGMENT_LEN) {
+            out.push(chunk.len() as u8);
+            out.extend_from_slice(chunk);
         }
     }
 
